@@ -146,7 +146,7 @@ func local() []cat.Program {
 		// the same through shorthand-free string templates only, inside nested loops
 		{Name: "x-leak-probe-loop", Canary: "xllWHO", Feat: []string{"leak-probe", "v-for"},
 			Files: map[string]string{"page.vuego": `<div v-for="(a, row) in grid"><span v-for="(c, cell) in row" :data-i="i" :data-x="x">{{ a }}{{ c }}={{ cell }}{{ r }}{{ item }}{{ role }}{{ t }}{{ it }}{{ mi }}{{ x }}</span>{{ c }}{{ cell }}</div><p>{{ a }}{{ row }}{{ who }}</p>` + end},
-			Data: map[string]vals.V{"who": s("xllWHO"), "grid": anys(strs("g1", "g2"), strs("g3"), strs("g4", "g5", "g6"))}},
+			Data:  map[string]vals.V{"who": s("xllWHO"), "grid": anys(strs("g1", "g2"), strs("g3"), strs("g4", "g5", "g6"))}},
 
 		// ---- failing programs
 		{Name: "x-fail-deep", Fails: true, Canary: "xfdWHO", Feat: []string{"fail", "include", "slot", "loop"},
@@ -155,6 +155,13 @@ func local() []cat.Program {
 				"c.vuego":    `<div :data-t="title"><slot>empty</slot><span>{{ count }}</span></div>`,
 			},
 			Data: map[string]vals.V{"who": s("xfdWHO"), "rows": anys(m(map[string]vals.V{"name": s("fd1")}), m(map[string]vals.V{"name": s("fd2")}), m(map[string]vals.V{"name": s("fd3")}))}},
+		// the failure strikes in the middle of a text node / attribute value, after part of it was produced
+		{Name: "x-fail-mid-text", Fails: true, Canary: "xfmWHO", Feat: []string{"fail", "mid-text"},
+			Files: map[string]string{"page.vuego": `<p>ok {{ who }}</p><p>prefix {{ who }} and {{ num }} then {{ who | boom }} suffix</p><p>after</p>`},
+			Data:  map[string]vals.V{"who": s("xfmWHO"), "num": n(8)}},
+		{Name: "x-fail-mid-attr", Fails: true, Canary: "xfaWHO", Feat: []string{"fail", "mid-attr"},
+			Files: map[string]string{"page.vuego": `<p title="t {{ who }} / {{ num }} / {{ who | boom }} end" :a="who">x {{ who }}</p>`},
+			Data:  map[string]vals.V{"who": s("xfaWHO"), "num": n(9)}},
 		{Name: "x-fail-bound-late", Fails: true, Canary: "xfbWHO", Feat: []string{"fail", "bound", hazard},
 			Files: map[string]string{"page.vuego": `<p :a="who" :b="num" style="x:1;y:2" :style="sty" :c="who | upper">ok</p><p :a="who" :b="num" :z="who | nosuchfilter">bad</p>`},
 			Data:  map[string]vals.V{"who": s("xfbWHO"), "num": n(2), "sty": s("y:3;z:4")}},
